@@ -78,13 +78,14 @@ type Gen struct {
 	freshNames  map[string]bool
 	blockingOps []string
 	arrSync     map[string][2]string
+	tparamTypes map[string]*types.TypeParam
 }
 
 func NewGen(w *World, fnName string) *Gen {
 	g := &Gen{W: w, sc: NewScript(), fnName: fnName, structs: map[string]string{}, structTy: map[string]*types.Struct{},
 		tags: map[string]int{}, strLits: map[string]Term{}, heapDecl: map[string]bool{}, tparams: map[string]bool{},
 		absDecl: map[string]bool{}, usedAssumed: map[string]bool{}, inlined: map[string]bool{}, ghostSort: map[string]string{},
-		closures: map[string]*closureVal{}, usedProved: map[string]bool{}, freshNames: map[string]bool{}, arrSync: map[string][2]string{}}
+		closures: map[string]*closureVal{}, usedProved: map[string]bool{}, freshNames: map[string]bool{}, arrSync: map[string][2]string{}, tparamTypes: map[string]*types.TypeParam{}}
 	g.sc.Decl(preludeText)
 	g.curBase = "allocBase"
 	return g
@@ -223,6 +224,11 @@ func isIntType(t types.Type) bool {
 
 func (g *Gen) zero(t types.Type) Term {
 	s := g.sortOf(t)
+	if _, ok := types.Unalias(t).(*types.TypeParam); ok {
+		n := "zero_" + s
+		g.sc.DeclareOnce(n, "(declare-const "+n+" "+s+")")
+		return Term{n, s}
+	}
 	switch u := t.Underlying().(type) {
 	case *types.Basic:
 		switch s {
@@ -272,6 +278,9 @@ func (g *Gen) zero(t types.Type) Term {
 
 // typeInv returns the formula stating that term v is a well-typed value of t ("true" if none).
 func (g *Gen) typeInv(v string, t types.Type) string {
+	if _, ok := types.Unalias(t).(*types.TypeParam); ok {
+		return "true"
+	}
 	switch u := t.Underlying().(type) {
 	case *types.Basic:
 		if lo, hi, ok := intRange(u); ok {
